@@ -98,6 +98,12 @@ def _check_numeric_site(ctx, fi, label, rule="C02.D1"):
         t = tm.term(u.value)
         coef = ("a", ("n", elem), "coefficient")
         ok_term = t[0] == "op" and t[1] == "Mult" and coef in t[2] and len(t[2]) == 2
+        if not ok_term:
+            # the weighting may sit in a method of the class that only decides a value (get_multiplied_interpolation): look through it
+            from ..inline import expand_value_calls
+            t2 = tm.term(expand_value_calls(ctx.prog, fi, u.value))
+            if t2[0] == "op" and t2[1] == "Mult" and coef in t2[2] and len(t2[2]) == 2:
+                t, ok_term = t2, True
         if ok_term:
             other = [x for x in t[2] if x != coef][0]
             # the component result is computed for this very element
@@ -112,7 +118,7 @@ def _check_numeric_site(ctx, fi, label, rule="C02.D1"):
                           and any(l is loop for l in R.enclosing_loops(bb.stmt))]
                     if bs and cfg_of(fi).must_pass_through(cfg_of(fi).node_of(loop), [R.cfg_node(fi, u)],
                                                           [cfg_of(fi).node_of(bb.stmt) for bb in bs]):
-                        alts = [tm.term(bb.value) for bb in bs]
+                        alts = [R.resolve_locals(fi, tm.term(bb.value), cfg_of(fi).node_of(bb.stmt), tm) for bb in bs]
             other = alts[0]
             if not all(any(x == ("n", elem) for x in subterms(a)) for a in alts):
                 problems.append("the weighted value %s is not computed from the loop's component grid `%s`" % (show(other), elem))
@@ -539,7 +545,8 @@ def _check_closed_form_scheme(prog, ctx):
             continue
         kws = {k.arg: k.value for k in x.keywords}
         lv = kws.get("levelvector", x.args[0] if x.args else None)
-        t = Terms(fi.node, max_depth=0).term(lv) if lv is not None else ("?",)
+        tm0_ = Terms(fi.node, max_depth=0)
+        t = R.resolve_locals(fi, tm0_.term(lv), node, tm0_) if lv is not None else ("?",)
         lminp, lmaxp = fi.params[1], fi.params[2]
         shift_ok = any(y == ("op", "Sub", (("n", lminp), ("c", "1"))) for y in subterms(t))
     budget_ok = False
